@@ -298,13 +298,14 @@ def _check_inputs(pipeline: Pipeline, inputs: dict[str, Any]) -> None:
 
 def _maybe_str_to_tuple(x: str) -> tuple[str, ...] | str:
     if "," in x:
-        return tuple(x.split(","))
+        return tuple(x.removesuffix(",").split(","))
     return x
 
 
 def _maybe_tuple_to_str(x: tuple[str, ...] | str) -> str:
     if isinstance(x, tuple):
-        return ",".join(x)
+        # A 1-tuple keeps a trailing comma (like its repr), otherwise it would be read back as a `str`.
+        return ",".join(x) + ("," if len(x) == 1 else "")
     return x
 
 
